@@ -134,7 +134,7 @@ Section SplineBook.
   (* control velocities of one segment: the K columns of Eigen::Matrix<double, Dof, K> *)
   Definition ctrl : Type := list tan.
   Variable seg : ctrl -> Q -> G.             (* cspline_eval_vs<K,G>(V.colwise(), kMappedBasisFunction<K>, u) *)
-  Variable absint : ctrl -> Q -> Q -> tan.   (* spline_impl.hpp:277-291: per coordinate k,
+  Variable absint : ctrl -> Q -> Q -> tan.   (* spline_impl.hpp:283,291-294: per coordinate k,
                                                 integrate_absolute_polynomial(ua, ub, 3 c3k, 2 c2k, c1k) *)
   Variable K : nat.                          (* template parameter K (degree), K >= 1 *)
   Variable fl : flags.
@@ -149,11 +149,11 @@ Section SplineBook.
     seg_Del : list Q         (* m_seg_Del *)
   }.
 
-  Definition size (s : spline) : nat := length (end_t s).                (* spline_impl.hpp:99-103 *)
-  Definition is_empty (s : spline) : bool := (size s =? 0)%nat.         (* :105-109 *)
-  Definition tmax (s : spline) : Q := last (end_t s) 0.                 (* :128-133: empty -> 0, else back() *)
-  Definition start_ (s : spline) : G := g0 s.                           (* :135-139 *)
-  Definition end_ (s : spline) : G := last (end_g s) (g0 s).            (* :141-146: empty -> m_g0, else back() *)
+  Definition size (s : spline) : nat := length (end_t s).                (* spline_impl.hpp:98-102 *)
+  Definition is_empty (s : spline) : bool := (size s =? 0)%nat.         (* :104-108 *)
+  Definition tmax (s : spline) : Q := last (end_t s) 0.                 (* :126-131: empty -> 0, else back() *)
+  Definition start_ (s : spline) : G := g0 s.                           (* :133-137 *)
+  Definition end_ (s : spline) : G := last (end_g s) (g0 s).            (* :139-144: empty -> m_g0, else back() *)
 
   (* Spline(const G & ga), spline_impl.hpp:26-28 *)
   Definition mk_empty (ga : G) : spline := mkspline ga [] [] [] [] [].
@@ -161,52 +161,52 @@ Section SplineBook.
   Definition mk_seg (T : Q) (V : ctrl) (ga : G) : spline :=
     mkspline ga [T] [op ga (seg V 1)] [V] [0] [1].
 
-  (* ConstantVelocity, spline_impl.hpp:78-87 *)
+  (* ConstantVelocity, spline_impl.hpp:75-84 *)
   Definition constant_velocity (v : tan) (T : Q) (ga : G) : spline :=
-    if Qle_bool T 0 then mk_empty e                                      (* :81-82  return Spline() *)
+    if Qle_bool T 0 then mk_empty e                                      (* :78-79  return Spline() *)
     else
-      let d := if fx_cv fl then inject_Z (Z.of_nat K) else 3 in          (* :84  (T / 3) *)
-      mk_seg T (repeat (smul (T / d) v) K) ga.                           (* :84-85  v.replicate(1, K) *)
+      let d := if fx_cv fl then inject_Z (Z.of_nat K) else 3 in          (* :81  (T / 3) *)
+      mk_seg T (repeat (smul (T / d) v) K) ga.                           (* :81-82  v.replicate(1, K) *)
 
-  (* FixedCubic (K == 3), spline_impl.hpp:89-97 *)
+  (* FixedCubic (K == 3), spline_impl.hpp:86-96 *)
   Definition fixed_cubic (gb : G) (va vb : tan) (T : Q) (ga : G) : spline :=
-    let V0 := smul (T / 3) va in                                         (* :94  T * va / 3 *)
-    let V2 := smul (T / 3) vb in                                         (* :95 *)
-    let V1 := tlog (op (op (texp (tneg V0)) (op (inv ga) gb)) (texp (tneg V2))) in   (* :96 *)
+    let V0 := smul (T / 3) va in                                         (* :92  T * va / 3 *)
+    let V2 := smul (T / 3) vb in                                         (* :93 *)
+    let V1 := tlog (op (op (texp (tneg V0)) (op (inv ga) gb)) (texp (tneg V2))) in   (* :94 *)
     mk_seg T [V0; V1; V2] ga.
 
-  (* make_local, spline_impl.hpp:148-152 *)
+  (* make_local, spline_impl.hpp:146-150 *)
   Definition make_local (s : spline) : spline :=
     if fx_make_local fl
     then mkspline e (end_t s) (map (op (inv (g0 s))) (end_g s)) (Vs s) (seg_T0 s) (seg_Del s)
-    else mkspline e (end_t s) (end_g s) (Vs s) (seg_T0 s) (seg_Del s).   (* :151  m_g0 = Identity<G>() *)
+    else mkspline e (end_t s) (end_g s) (Vs s) (seg_T0 s) (seg_Del s).   (* :149  m_g0 = Identity<G>() *)
 
-  (* concat_global, spline_impl.hpp:154-185 *)
+  (* concat_global, spline_impl.hpp:152-181 *)
   Definition concat_global (s o : spline) : spline :=
     let N1 := size s in
-    let tend := tmax s in                                                (* :160 *)
-    let g0' := if is_empty s then g0 o else g0 s in                      (* :162-163 *)
+    let tend := tmax s in                                                (* :158 *)
+    let g0' := if is_empty s then g0 o else g0 s in                      (* :160-161 *)
     let eg := if is_empty s then end_g s
-              else upd (N1 - 1) (fun _ => g0 o) (end_g s) in             (* :165  m_end_g[N1 - 1] = other.m_g0 *)
+              else upd (N1 - 1) (fun _ => g0 o) (end_g s) in             (* :163  m_end_g[N1 - 1] = other.m_g0 *)
     mkspline g0'
-      (end_t s ++ map (fun x => tend + x) (end_t o))                     (* :175 *)
-      (eg ++ end_g o)                                                    (* :176 *)
-      (Vs s ++ Vs o) (seg_T0 s ++ seg_T0 o) (seg_Del s ++ seg_Del o).    (* :177-179 *)
+      (end_t s ++ map (fun x => tend + x) (end_t o))                     (* :173 *)
+      (eg ++ end_g o)                                                    (* :174 *)
+      (Vs s ++ Vs o) (seg_T0 s ++ seg_T0 o) (seg_Del s ++ seg_Del o).    (* :175-177 *)
 
-  (* concat_local, spline_impl.hpp:187-219 *)
+  (* concat_local, spline_impl.hpp:183-213; operator+= :215-219 *)
   Definition concat_local (s o : spline) : spline :=
     let N1 := size s in
-    let tend := tmax s in                                                (* :193 *)
-    let gend := end_ s in                                                (* :194 *)
-    let g0' := if is_empty s then op (g0 s) (g0 o) else g0 s in          (* :196-197 *)
+    let tend := tmax s in                                                (* :189 *)
+    let gend := end_ s in                                                (* :190 *)
+    let g0' := if is_empty s then op (g0 s) (g0 o) else g0 s in          (* :192-193 *)
     let eg := if is_empty s then end_g s
-              else upd (N1 - 1) (fun g => op g (g0 o)) (end_g s) in      (* :199  m_end_g.back() = back() * other.m_g0 *)
+              else upd (N1 - 1) (fun g => op g (g0 o)) (end_g s) in      (* :195  m_end_g.back() = back() * other.m_g0 *)
     mkspline g0'
-      (end_t s ++ map (fun x => tend + x) (end_t o))                     (* :209 *)
-      (eg ++ map (op gend) (end_g o))                                    (* :210 *)
-      (Vs s ++ Vs o) (seg_T0 s ++ seg_T0 o) (seg_Del s ++ seg_Del o).    (* :211-213 *)
+      (end_t s ++ map (fun x => tend + x) (end_t o))                     (* :205 *)
+      (eg ++ map (op gend) (end_g o))                                    (* :206 *)
+      (Vs s ++ Vs o) (seg_T0 s ++ seg_T0 o) (seg_Del s ++ seg_Del o).    (* :207-209 *)
 
-  (* find_idx, spline_impl.hpp:372-385 *)
+  (* find_idx, spline_impl.hpp:371-385 *)
   Definition find_idx (s : spline) (t : Q) : nat :=
     match bis (end_t s) t with
     | None => O                                                          (* it == end: istar stays 0 *)
@@ -218,39 +218,39 @@ Section SplineBook.
   Definition start_g (s : spline) (i : nat) : G :=                       (* istar == 0 ? m_g0 : m_end_g[istar - 1] *)
     match i with O => g0 s | S j => nth j (end_g s) e end.
 
-  (* operator()(t, vel, acc), spline_impl.hpp:235-277, K >= 1.
+  (* operator()(t, vel, acc), spline_impl.hpp:229-270, K >= 1.
      Result: the value, and the data that determines the derivative outputs:
        None            -> vel and acc are set to zero
-       Some (V, u, r)  -> vel = r * vel_cspline(V,u),  acc = r*r * acc_cspline(V,u)   (r = Del/T, :272-273) *)
+       Some (V, u, r)  -> vel = r * vel_cspline(V,u),  acc = r*r * acc_cspline(V,u)   (r = Del/T, :266-267) *)
   Definition eval_full (s : spline) (t : Q) : G * option (ctrl * Q * Q) :=
-    if is_empty s || Qltb t 0 then (g0 s, None)                          (* :238-241 *)
-    else if Qltb (tmax s) t then (end_ s, None)                          (* :242-246  m_end_g.back() *)
+    if is_empty s || Qltb t 0 then (g0 s, None)                          (* :233-236 *)
+    else if Qltb (tmax s) t then (end_ s, None)                          (* :237-240  m_end_g.back() *)
     else
-      let istar := find_idx s t in                                       (* :248 *)
-      let ta := prev_t s istar in                                        (* :250 *)
-      let T := qnth (end_t s) istar - ta in                              (* :251 *)
-      let Del := qnth (seg_Del s) istar in                               (* :253 *)
+      let istar := find_idx s t in                                       (* :243 *)
+      let ta := prev_t s istar in                                        (* :245 *)
+      let T := qnth (end_t s) istar - ta in                              (* :246 *)
+      let Del := qnth (seg_Del s) istar in                               (* :248 *)
       let T0 := qnth (seg_T0 s) istar in
-      let u := qclamp (T0 + Del * (t - ta) / T) 0 1 in                   (* :254 *)
-      let gs := start_g s istar in                                       (* :256 *)
+      let u := qclamp (T0 + Del * (t - ta) / T) 0 1 in                   (* :249 *)
+      let gs := start_g s istar in                                       (* :251 *)
       let V := nth istar (Vs s) [] in
-      let gs := if Qltb 0 T0 then op gs (inv (seg V T0)) else gs in      (* :265-268 *)
-      (op gs (seg V u), Some (V, u, Del / T)).                           (* :269-274 *)
+      let gs := if Qltb 0 T0 then op gs (inv (seg V T0)) else gs in      (* :260-263 *)
+      (op gs (seg V u), Some (V, u, Del / T)).                           (* :264-268 *)
 
   Definition eval (s : spline) (t : Q) : G := fst (eval_full s t).
 
-  (* arclength (K == 3), spline_impl.hpp:279-304: the loop with its break, accumulator threaded *)
+  (* arclength (K == 3), spline_impl.hpp:272-298: the loop with its break, accumulator threaded *)
   Fixpoint arclength_loop (n i : nat) (s : spline) (t : Q) (ret : tan) : tan :=
     match n with
     | O => ret
     | S n' =>
-      if (0 <? i)%nat && Qle_bool t (prev_t s i) then ret                (* :286  break *)
+      if (0 <? i)%nat && Qle_bool t (prev_t s i) then ret                (* :280  break *)
       else
-        let ta := prev_t s i in                                          (* :291 *)
-        let tb := qnth (end_t s) i in                                    (* :292 *)
-        let ua := qnth (seg_T0 s) i in                                   (* :294 *)
-        let ub := ua + qnth (seg_Del s) i * (qmin t tb - ta) / (tb - ta) in   (* :295 *)
-        arclength_loop n' (S i) s t (tadd ret (absint (nth i (Vs s) []) ua ub))  (* :297-300 *)
+        let ta := prev_t s i in                                          (* :285 *)
+        let tb := qnth (end_t s) i in                                    (* :286 *)
+        let ua := qnth (seg_T0 s) i in                                   (* :288 *)
+        let ub := ua + qnth (seg_Del s) i * (qmin t tb - ta) / (tb - ta) in   (* :289 *)
+        arclength_loop n' (S i) s t (tadd ret (absint (nth i (Vs s) []) ua ub))  (* :291-294 *)
     end.
   Definition arclength (s : spline) (t : Q) : tan := arclength_loop (size s) 0 s t tzero.
   (* the parts that are integrated: (segment index, ua, ub) -- observable used by the correspondence *)
@@ -267,12 +267,12 @@ Section SplineBook.
         (i, ua, ub) :: arclength_parts n' (S i) s t
     end.
 
-  (* crop, spline_impl.hpp:306-370 *)
+  (* crop, spline_impl.hpp:300-369 *)
   Definition crop_Nseg (s : spline) (ta tb : Q) : nat * nat :=           (* (i0, Nseg), ta tb already clamped *)
-    let i0 := find_idx s ta in                                           (* :314 *)
-    let Nseg := (find_idx s tb + 1 - i0)%nat in                          (* :315 *)
+    let i0 := find_idx s ta in                                           (* :308 *)
+    let Nseg := (find_idx s tb + 1 - i0)%nat in                          (* :309 *)
     let Nseg := if (2 <=? Nseg)%nat && Qeq_bool (qnth (end_t s) (i0 + Nseg - 2)) tb
-                then (Nseg - 1)%nat else Nseg in                         (* :318 *)
+                then (Nseg - 1)%nat else Nseg in                         (* :312 *)
     (i0, Nseg).
 
   (* the two divisors of the re-parameterisation blocks (:345-346 and :356-357) *)
@@ -286,37 +286,37 @@ Section SplineBook.
     (ttb1 - tta1, ttb2 - tta2).
 
   Definition crop (s : spline) (ta tb : Q) (localize : bool) : spline :=
-    let ta := qmax ta 0 in                                               (* :308 *)
-    let tb := qmin tb (tmax s) in                                        (* :309 *)
-    if Qle_bool tb ta then mk_empty e else                               (* :311 *)
+    let ta := qmax ta 0 in                                               (* :303 *)
+    let tb := qmin tb (tmax s) in                                        (* :304 *)
+    if Qle_bool tb ta then mk_empty e else                               (* :306 *)
     let '(i0, Nseg) := crop_Nseg s ta tb in
-    if (Nseg =? 0)%nat then mk_empty e else                              (* :320 *)
-    let ga := eval s ta in                                               (* :323 *)
+    if (Nseg =? 0)%nat then mk_empty e else                              (* :314 *)
+    let ga := eval s ta in                                               (* :317 *)
     let gb := eval s tb in
-    (* :336, :339  composition(inverse(ga), .); the frame repair keeps the global value when !localize *)
+    (* :328, :331  composition(inverse(ga), .); the frame repair keeps the global value when !localize *)
     let fr := fun g : G => if fx_crop_frame fl && negb localize then g else op (inv ga) g in
-    (* copy loop :331-344 *)
-    let et := map (fun x => x - ta) (slice i0 (Nseg - 1) (end_t s)) ++ [tb - ta] in       (* :338 / :335 *)
-    let eg := map fr (slice i0 (Nseg - 1) (end_g s)) ++ [fr gb] in                        (* :339 / :336 *)
-    let vs := slice i0 Nseg (Vs s) in                                                     (* :341 *)
-    let T0s := slice i0 Nseg (seg_T0 s) in                                                (* :342 *)
-    let Dels := slice i0 Nseg (seg_Del s) in                                              (* :343 *)
-    (* crop first segment :346-355 *)
-    let tta := if fx_crop_idx fl then prev_t s i0 else 0 in              (* :348  const double tta = 0 *)
-    let ttb := qnth (end_t s) i0 in                                      (* :349 *)
+    (* copy loop :325-336 *)
+    let et := map (fun x => x - ta) (slice i0 (Nseg - 1) (end_t s)) ++ [tb - ta] in       (* :330 / :327 *)
+    let eg := map fr (slice i0 (Nseg - 1) (end_g s)) ++ [fr gb] in                        (* :331 / :328 *)
+    let vs := slice i0 Nseg (Vs s) in                                                     (* :333 *)
+    let T0s := slice i0 Nseg (seg_T0 s) in                                                (* :334 *)
+    let Dels := slice i0 Nseg (seg_Del s) in                                              (* :335 *)
+    (* crop first segment :338-347 *)
+    let tta := if fx_crop_idx fl then prev_t s i0 else 0 in              (* :340  const double tta = 0 *)
+    let ttb := qnth (end_t s) i0 in                                      (* :341 *)
     let sa := ta in
     let sb := ttb in
-    let T0s := upd 0 (fun x => x + qnth Dels 0 * (sa - tta) / (ttb - tta)) T0s in         (* :353 *)
-    let Dels := upd 0 (fun x => x * ((sb - sa) / (ttb - tta))) Dels in                    (* :354 *)
-    (* crop last segment :357-366 *)
+    let T0s := upd 0 (fun x => x + qnth Dels 0 * (sa - tta) / (ttb - tta)) T0s in         (* :345 *)
+    let Dels := upd 0 (fun x => x * ((sb - sa) / (ttb - tta))) Dels in                    (* :346 *)
+    (* crop last segment :349-358 *)
     let off := if fx_crop_idx fl then i0 else O in
-    let tta := if (Nseg =? 1)%nat then ta else qnth (end_t s) (off + Nseg - 2) in         (* :359 *)
-    let ttb := qnth (end_t s) (off + Nseg - 1) in                                         (* :360 *)
+    let tta := if (Nseg =? 1)%nat then ta else qnth (end_t s) (off + Nseg - 2) in         (* :351 *)
+    let ttb := qnth (end_t s) (off + Nseg - 1) in                                         (* :352 *)
     let sa := tta in
     let sb := tb in
-    let T0s := upd (Nseg - 1) (fun x => x + qnth Dels (Nseg - 1) * (sa - tta) / (ttb - tta)) T0s in   (* :364 *)
-    let Dels := upd (Nseg - 1) (fun x => x * ((sb - sa) / (ttb - tta))) Dels in                       (* :365 *)
-    mkspline (if localize then e else ga) et eg vs T0s Dels.             (* :368-376 *)
+    let T0s := upd (Nseg - 1) (fun x => x + qnth Dels (Nseg - 1) * (sa - tta) / (ttb - tta)) T0s in   (* :356 *)
+    let Dels := upd (Nseg - 1) (fun x => x * ((sb - sa) / (ttb - tta))) Dels in                       (* :357 *)
+    mkspline (if localize then e else ga) et eg vs T0s Dels.             (* :361-368 *)
 
   (* where the double code divides by zero (result NaN/Inf, outside the exact model) *)
   Definition crop_div0 (s : spline) (ta tb : Q) : bool :=
